@@ -305,6 +305,8 @@ def _dim(d, n):
 
 def _st_method(x, name, args, kwargs, where):
     n = len(x.shape)
+    if name in ("detach", "requires_grad_", "clone", "contiguous", "float", "double"):
+        return x                              # value-preserving
     if name == "unsqueeze":
         d = int(args[0] if args else kwargs["dim"])
         d = d if d >= 0 else n + 1 + d
@@ -518,6 +520,8 @@ def _index_interp(model):
         if isinstance(base, ST):
             if name == "shape":
                 return tuple(Fraction(s) for s in base.shape)
+            if name == "requires_grad":
+                return False                  # a plain tensor: code that re-roots it at a fresh leaf takes that branch
             return _STBound(base, name)
         return orig_getattr(base, name, node, f2, default)
 
